@@ -647,7 +647,13 @@ fn app_headers(len: usize, max: usize, special_weight: u32) -> BoxedStrategy<Vec
             v.into_iter()
                 .map(|(via, name, value, r)| {
                     let value = if name.eq_ignore_ascii_case("content-length") {
-                        len.to_string()
+                        // mostly the real length; sometimes a value that is no length at all
+                        // (never sent, and it does not change the declared length)
+                        if r % 5 == 4 {
+                            ["abc", "", "-1", "18446744073709551616", "5 bytes", "0x10", "1.0"][(r as usize / 5) % 7].to_string()
+                        } else {
+                            len.to_string()
+                        }
                     } else if name.eq_ignore_ascii_case("date") && r % 2 == 0 {
                         "Sun, 06 Nov 1994 08:49:37 GMT".to_string()
                     } else if name.eq_ignore_ascii_case("content-type") && r % 2 == 0 {
@@ -800,7 +806,7 @@ pub fn c19_strategy() -> BoxedStrategy<RespCase> {
         let headers: Vec<HdrOp> = headers
             .into_iter()
             .map(|mut h| {
-                if h.name.eq_ignore_ascii_case("content-length") {
+                if h.name.eq_ignore_ascii_case("content-length") && !h.value.is_empty() && h.value.bytes().all(|b| b.is_ascii_digit()) && h.value.len() < 19 {
                     h.value = body_len.to_string();
                 }
                 if ctor != Ctor::New && h.via == Via::Ctor {
